@@ -33,8 +33,9 @@ type c01Dir struct {
 	bound  cgLin
 	hasB   bool
 
-	nonceRoot CV // allocation of the nonce buffer
-	prefixSrc []CV
+	nonceRoot   CV   // allocation of the nonce buffer (zero: the nonce is grown from nothing by append)
+	nonceFinals []CV // the values handed to the AEAD (one per way of completing the nonce)
+	prefixSrc   []CV
 }
 
 func (d *c01Dir) name() string { return d.root }
@@ -176,9 +177,26 @@ func (x *c01Ctx) roleRules() {
 	}
 	// the two directions build their nonce in the same function
 	// the nonce layout, for the function(s) that build it (one shared builder, or one per direction)
-	if e.nonceRoot.ok() && d.nonceRoot.ok() {
-		x.nonceLayout(e.nonceRoot.C.fn, e.nonceRoot.V, "Encrypt")
-		x.nonceLayout(d.nonceRoot.C.fn, d.nonceRoot.V, "Decrypt")
+	if (e.nonceRoot.ok() || len(e.nonceFinals) > 0) && (d.nonceRoot.ok() || len(d.nonceFinals) > 0) {
+	dirs:
+		for _, dd := range []*c01Dir{e, d} {
+			var fn *ssa.Function
+			var finals []ssa.Value
+			if dd.nonceRoot.ok() {
+				fn = dd.nonceRoot.C.fn
+			}
+			for _, f := range dd.nonceFinals {
+				if fn == nil {
+					fn = f.C.fn
+				}
+				if f.C.fn != fn {
+					x.r.Undecide("C01.R3: %s: the nonce is started in %s and completed in %s; the layout is only modelled within one function", dd.root, fn.Name(), f.C.fn.Name())
+					continue dirs
+				}
+				finals = append(finals, f.V)
+			}
+			x.nonceLayout(fn, dd.nonceRoot.V, finals, dd.root)
+		}
 	}
 	x.kdfG(e)
 	x.kdfG(d)
@@ -368,8 +386,12 @@ func (x *c01Ctx) opArgs(d *c01Dir) {
 	r.Check(g.isNil(CV{d.op.C, opc.Call.Args[3]}), c01R4, d.root+" additional data", pos, "no AAD", "AEAD."+d.opName+" in "+fname+" is given additional authenticated data; the spec has none, so spec implementations cannot open/produce these segments")
 	srcs := g.srcSet(g.sources(CV{d.op.C, opc.Call.Args[1]}))
 	roots := map[CV]bool{}
+	var finals, spread []CV
 	for s := range srcs {
-		roots[g.sliceRoot(s)] = true
+		base, sp, fin := g.nonceChain(s)
+		roots[base] = true
+		spread = append(spread, sp...)
+		finals = append(finals, fin)
 	}
 	if len(roots) != 1 {
 		r.Undecide("C01.R4: the nonce given to AEAD.%s in %s has %d possible origins %s", d.opName, fname, len(roots), g.descSet(roots))
@@ -378,14 +400,42 @@ func (x *c01Ctx) opArgs(d *c01Dir) {
 	for rt := range roots {
 		d.nonceRoot = rt
 	}
+	sort.Slice(finals, func(i, j int) bool { return g.pos(finals[i]) < g.pos(finals[j]) })
+	d.nonceFinals = finals
 	switch d.nonceRoot.V.(type) {
 	case *ssa.Alloc, *ssa.MakeSlice:
 	default:
+		if isNilConst(d.nonceRoot.V) && len(spread) > 0 {
+			d.nonceRoot = CV{} // grown from nothing by append
+			break
+		}
 		r.Undecide("C01.R4: the nonce given to AEAD.%s in %s is not a freshly allocated buffer (%s)", d.opName, fname, g.desc(d.nonceRoot))
-		d.nonceRoot = CV{}
+		d.nonceRoot, d.nonceFinals = CV{}, nil
 		return
 	}
-	// the bytes copied into its prefix
+	// the bytes copied into its prefix (in place, or appended whole)
+	for _, sp := range spread {
+		// append(nonce, x[:k]...) takes the first bytes of x, as copy(nonce[0:k], x) does
+		for i := 0; i < 4; i++ {
+			sl, ok := g.deep(sp).V.(*ssa.Slice)
+			if !ok {
+				break
+			}
+			if sl.Low != nil {
+				if k, ok := g.constInt(CV{g.deep(sp).C, sl.Low}); !ok || k != 0 {
+					break
+				}
+			}
+			if _, isSlice := sl.X.Type().Underlying().(*types.Slice); !isSlice {
+				break
+			}
+			sp = CV{g.deep(sp).C, sl.X}
+		}
+		d.prefixSrc = append(d.prefixSrc, g.sources(sp)...)
+	}
+	if !d.nonceRoot.ok() {
+		return
+	}
 	c := d.nonceRoot.C
 	allInstrs(c.fn, func(in ssa.Instruction) {
 		call, ok := in.(*ssa.Call)
@@ -393,9 +443,37 @@ func (x *c01Ctx) opArgs(d *c01Dir) {
 			return
 		}
 		if g.sliceRoot(CV{c, call.Call.Args[0]}) == d.nonceRoot {
-			d.prefixSrc = g.sources(CV{c, call.Call.Args[1]})
+			d.prefixSrc = append(d.prefixSrc, g.sources(CV{c, call.Call.Args[1]})...)
 		}
 	})
+}
+
+// nonceChain follows a byte slice back through the calls that only extend it
+// (append, binary.*.AppendUintN) to the buffer it starts from. spread: the
+// slices whose content was appended whole (append(x, y...)); final: the value
+// the chain was entered at.
+func (g *cGraph) nonceChain(v CV) (base CV, spread []CV, final CV) {
+	v = g.deep(v)
+	final = v
+	for i := 0; i < 16; i++ {
+		c, ok := v.V.(*ssa.Call)
+		if !ok {
+			break
+		}
+		if builtinName(c) == "append" && len(c.Call.Args) == 2 {
+			if _, lit := c01VarargElems(c.Call.Args[1]); !lit && !isNilConst(c.Call.Args[1]) {
+				spread = append(spread, CV{v.C, c.Call.Args[1]})
+			}
+			v = g.deep(CV{v.C, c.Call.Args[0]})
+			continue
+		}
+		if args, _, _, ok := c01ByteOrderCall(c, "AppendUint"); ok {
+			v = g.deep(CV{v.C, args[0]})
+			continue
+		}
+		break
+	}
+	return g.sliceRoot(v), spread, final
 }
 
 // ---------------------------------------------------------------- R3: key derivation
@@ -539,7 +617,12 @@ func (x *c01Ctx) kdfG(d *c01Dir) {
 				}
 			}
 		case "nonce prefix":
-			saltGood = len(prefix) > 0 && sameSet(dv.salt, prefix)
+			if len(prefix) == 0 {
+				// which bytes open the nonce was not established (see the R3/R4 nonce reasons): not "a different salt"
+				r.Undecide("C01.R3: %s: the bytes that open the nonce were not identified, so the salt of the %s derivation cannot be compared with them", d.root, k.specKey)
+				continue
+			}
+			saltGood = sameSet(dv.salt, prefix)
 		default:
 			r.Undecide("C01.R3: README salt %q of %s is not modelled", sp[0], k.specKey)
 			continue
@@ -858,8 +941,12 @@ func (x *c01Ctx) wiringE(d *c01Dir) {
 	// nonce prefix
 	if v, ok := one("NoncePrefix"); ok {
 		a, b := g.srcSet(g.sources(v)), g.srcSet(d.prefixSrc)
-		r.Check(len(b) > 0 && sameSet(a, b), c01R8, "Encrypt manifest nonce prefix", pos, "Manifest.NoncePrefix is the prefix that goes into every nonce",
-			fmt.Sprintf("Manifest.NoncePrefix comes from %s but the nonces are built from %s: Decrypt derives a different payload key and nonces", g.descSet(a), g.descSet(b)))
+		if len(b) == 0 {
+			r.Undecide("C01.R8: Encrypt: the bytes that open the nonce were not identified; Manifest.NoncePrefix cannot be compared with them")
+		} else {
+			r.Check(sameSet(a, b), c01R8, "Encrypt manifest nonce prefix", pos, "Manifest.NoncePrefix is the prefix that goes into every nonce",
+				fmt.Sprintf("Manifest.NoncePrefix comes from %s but the nonces are built from %s: Decrypt derives a different payload key and nonces", g.descSet(a), g.descSet(b)))
+		}
 	} else {
 		r.Undecide("C01.R8: Manifest.NoncePrefix is not assigned exactly once under Encrypt")
 	}
@@ -959,8 +1046,12 @@ func (x *c01Ctx) wiringD(d *c01Dir) {
 		r.Undecide("C01.R8: Decrypt: the origin of the cipher / nonce prefix used for the segments is held somewhere the flow model cannot follow (%s); wiring rules not decided", g.desc(u[0]))
 		return
 	}
-	r.Check(allLoadsOf(pre, "NoncePrefix") && allLoadsOf(ciph, "Cipher"), c01R8, "Decrypt imports the manifest's values", pos, "nonces use manifest.NoncePrefix, the AEAD is chosen by manifest.Cipher",
-		fmt.Sprintf("under Decrypt the nonce prefix comes from %s and the AEAD is chosen by %s; they must be the manifest's NoncePrefix and Cipher", g.descSet(pre), g.descSet(ciph)))
+	if len(pre) == 0 || len(ciph) == 0 {
+		r.Undecide("C01.R8: Decrypt: the bytes that open the nonce / the value that selects the AEAD were not identified (%d / %d origins); the import of the manifest's values is not decided", len(pre), len(ciph))
+	} else {
+		r.Check(allLoadsOf(pre, "NoncePrefix") && allLoadsOf(ciph, "Cipher"), c01R8, "Decrypt imports the manifest's values", pos, "nonces use manifest.NoncePrefix, the AEAD is chosen by manifest.Cipher",
+			fmt.Sprintf("under Decrypt the nonce prefix comes from %s and the AEAD is chosen by %s; they must be the manifest's NoncePrefix and Cipher", g.descSet(pre), g.descSet(ciph)))
+	}
 	a0 := g.srcSet(g.sources(g.arg(u, 0)))
 	a1 := g.srcSet(g.sources(c01StripConv(g, g.arg(u, 1))))
 	r.Check(allLoadsOf(a0, "WFK") && allLoadsOf(a1, "KeyWrappingAlgorithm"), c01R8, "Decrypt unwraps the manifest's key", pos, "UnwrapKeyFn(manifest.WFK, manifest.KeyWrappingAlgorithm, …)",
